@@ -11,7 +11,7 @@ executable Lean model on generated inputs, compared per property projection,
 (3) property oracles evaluated directly on the implementation's observations,
 (4) verdict, replay files, evidence.
 """
-import sys, os, json, subprocess, hashlib, time, re, fcntl, shutil, argparse, collections
+import sys, os, json, subprocess, hashlib, time, re, fcntl, shutil, argparse, collections, tempfile
 
 VERIF = os.path.dirname(os.path.dirname(os.path.abspath(__file__)))
 REPO = os.environ.get("VERIF_REPO", "/repo")
@@ -1170,6 +1170,112 @@ def match_known(known, finding):
     return None
 
 # ------------------------------------------------------------------------------------------------
+# shrinking a failing case (runs only when there is something to report)
+# ------------------------------------------------------------------------------------------------
+def eval_line(lhs):
+    """run one case line through the implementation and the model; -> (types, (lhs, impl rhs, model rhs)) or None"""
+    try:
+        p = subprocess.run([harness_bin(), "exec"], input=(lhs + "\n").encode(), stdout=subprocess.PIPE, stderr=subprocess.DEVNULL, timeout=60)
+        p2 = subprocess.run([driver_bin()], input=p.stdout, stdout=subprocess.PIPE, stderr=subprocess.DEVNULL, timeout=60)
+    except Exception:
+        return None
+    d = tempfile.mkdtemp(prefix="shrink", dir=BUILD)
+    try:
+        tr, mo = os.path.join(d, "t"), os.path.join(d, "m")
+        open(tr, "wb").write(p.stdout); open(mo, "wb").write(p2.stdout)
+        types, cases = load_pairs(dict(trace=tr, model=mo))
+    finally:
+        shutil.rmtree(d, ignore_errors=True)
+    if not cases:
+        # the harness died on this case: an empty right-hand side
+        return types, (lhs, "", "")
+    return types, cases[-1]
+
+def failure_of(prop, cfg, sname, lhs, kind, known):
+    """does this case line still show a failure of the same kind (correspondence / oracle)?"""
+    r = eval_line(lhs)
+    if r is None: return None
+    types, (l2, rhs, mo) = r
+    f1 = lhs.split(" ")[1] if " " in lhs else ""
+    t = types.get(int(f1), None) if f1.isdigit() else None
+    if t is None:
+        t = types.get(0)
+        if t is None: return None
+    parse = SUITE_PARSE[sname]
+    try:
+        oi, om = parse(rhs), parse(mo)
+        if "sink" in oi: oi = norm_io(oi, om)
+        if "after" in oi and "after" in om and eq_masked(oi["after"], om["after"]):
+            oi["after_raw"] = oi["after"]; oi["after"] = om["after"]
+        if kind == "correspondence":
+            pi, pm = cfg["proj"](lhs, oi, t), cfg["proj"](lhs, om, t)
+            return (rhs, mo, f"implementation and model differ on the observables of {prop}: {pi} vs {pm}") if pi != pm else None
+        w = cfg["oracle"](lhs, oi, t, om) if cfg["oracle"].__code__.co_argcount == 4 else cfg["oracle"](lhs, oi, t)
+        if w and not match_known(known, Finding(prop, "oracle", sname, lhs, rhs, mo, w, t["desc"])):
+            return (rhs, mo, w)
+    except Exception:
+        return None
+    return None
+
+def hex_candidates(hx):
+    """smaller / simpler variants of a hex string: cut the tail, cut the head, drop chunks, zero bytes"""
+    if hx in ("-", ""): return
+    n = len(hx) // 2
+    k = n // 2
+    while k >= 1:
+        yield hx[: 2 * (n - k)]
+        for i in range(0, n - k + 1, k):
+            yield hx[: 2 * i] + hx[2 * (i + k):]
+        k //= 2
+    for i in range(n):
+        if hx[2 * i: 2 * i + 2] != "00":
+            yield hx[: 2 * i] + "00" + hx[2 * i + 2:]
+def list_candidates(items):
+    n = len(items)
+    k = n // 2
+    while k >= 1:
+        for i in range(0, n - k + 1, k):
+            yield items[:i] + items[i + k:]
+        k //= 2
+def line_candidates(lhs):
+    f = lhs.split(" ")
+    kind = f[0]
+    # the byte string a case works on is its last field (B, E, F, A, R, AR); scripts are comma lists (R, AR, S, AS)
+    if kind in ("B", "E", "F", "A", "R", "AR") and re.fullmatch(r"[0-9a-f]*", f[-1] or "x"):
+        for h in hex_candidates(f[-1]):
+            yield " ".join(f[:-1] + [h if h else "-"])
+    if kind in ("R", "AR", "S", "AS") and len(f) > 3 and "," in f[3]:
+        for it in list_candidates(f[3].split(",")):
+            if it: yield " ".join(f[:3] + [",".join(it)] + f[4:])
+    if kind == "O" and len(f) > 5 and re.fullmatch(r"[0-9a-f]+", f[4]):
+        # O tid place a16 pre op…: one operation on the state `pre`
+        for h in hex_candidates(f[4]):
+            if h: yield " ".join(f[:4] + [h] + f[5:])
+
+def shrink(prop, cfg, f, known, budget=160, seconds=60):
+    """greedy shrinking of the case line of a finding; returns (lhs, impl, model, what, steps) of the smallest failing variant found"""
+    if f.lhs in ("-", "") or f.suite not in SUITE_PARSE or f.kind not in ("correspondence", "oracle"):
+        return None
+    t0, steps, cur = time.time(), 0, f.lhs
+    best = None
+    first = failure_of(prop, cfg, f.suite, cur, f.kind, known)
+    if first is None:
+        return None            # not reproducible in isolation (needs its block, e.g. post oracles): leave as it is
+    progress = True
+    while progress and steps < budget and time.time() - t0 < seconds:
+        progress = False
+        for cand in line_candidates(cur):
+            if steps >= budget or time.time() - t0 > seconds: break
+            steps += 1
+            r = failure_of(prop, cfg, f.suite, cand, f.kind, known)
+            if r is not None:
+                cur, best, progress = cand, r, True
+                break
+    if best is None:
+        return None
+    return (cur, best[0], best[1], best[2], steps)
+
+# ------------------------------------------------------------------------------------------------
 # check one property
 # ------------------------------------------------------------------------------------------------
 def write_replay(f, extra=None):
@@ -1264,7 +1370,16 @@ def check_property(prop, tier, seed):
         if (f.kind, f.key()) in reported:
             return
         reported.add((f.kind, f.key()))
-        path = write_replay(f)
+        extra = None
+        if okh and len(violations) < 2:
+            # shrink the first reported cases; the replay file keeps the original case as well
+            with Lock():
+                sh_ = shrink(prop, cfg, f, known)
+            if sh_:
+                lhs_s, impl_s, model_s, what_s, steps = sh_
+                extra = dict(original_case=f.lhs, original_implementation=f.impl, original_model=f.model, shrink_steps=steps,
+                             case=lhs_s, implementation=impl_s, model=model_s, what=what_s)
+        path = write_replay(f, extra)
         violations.append(f"VIOLATION property={prop} replay={path}{suffix}")
     unknown_oracle = [f for f in oracle_findings if not match_known(known, f)]
     for f in oracle_findings[:200]:
